@@ -55,3 +55,11 @@ pub fn rc(r: i32) -> &'static str {
 pub fn na() -> String {
     "n/a".into()
 }
+
+/// tolerant decode used for the eager per-op argument vectors: non-hex tokens (container names, numbers) become empty
+pub fn unhex_lenient(s: &str) -> Vec<u8> {
+    if s == "-" || s.len() % 2 != 0 || !s.bytes().all(|c| c.is_ascii_hexdigit()) {
+        return vec![];
+    }
+    unhex(s)
+}
